@@ -388,6 +388,10 @@ def run_case(ctx, model, recipe, k, rng, accessors=True, tag="gen"):
         post = b.read()
         if i == 0 and not common.allclose(post["x"], pre["x"], rtol=1e-12):
             moved = True
+        if G.state_scale(post) > 1e6 or not np.isfinite(G.state_scale(post)):
+            # a diverging iteration (edge / non-convex stream): rounding differences are amplified without bound
+            ctx.count("discarded:diverged-trajectory")
+            break
         m_iter = G.state_from_wire(trace[i])
         fld = G.states_close(post, m_iter, rtol=RTOL * 10, skip=skip)
         if fld is None and i > 0:
@@ -440,7 +444,7 @@ def correspond(ctx, model):
     for name, c in corpus_cases():
         run_case(ctx, model, c["recipe"], int(c.get("k", 3)), rng, tag="corpus")
         ctx.count(f"corpus:{name}")
-    n = ctx.n(36, 260)
+    n = ctx.n(36, 130)
     kmax = ctx.n(5, 50)
     for it in range(n):
         for alg in G.ALGS:
